@@ -11,3 +11,6 @@ import XzVerif.Props.C05
 #print axioms Props.C05.C05_lzma_prefix_rejected_known
 #print axioms Props.C05.C05_xz_prefix_rejected
 #print axioms Props.C05.C05_xz_chain_cut_only_at_boundaries
+#print axioms Props.C05.extract_of_prefix
+#print axioms Props.C05.batch_eq
+#print axioms Props.C05.C05_lazy_lzma2_prefix_never_clean
